@@ -26,10 +26,26 @@ def evaluate(prop, facts, tier):
     ctx = report.Ctx(prop, facts, tier)
     try:
         mod.run(ctx)
+        from . import structure
+        files = anchor_files(prop)
+        if files:
+            n = structure.check(ctx, files)
+            ctx.clauses.append("frozen loop structure of the anchor files %s: every continuing iteration reaches the reference calls, no new early exit, no new carried state (T10, %d loops)" % (sorted(files), n))
     except core.AnchorMissing as e:
         ctx.ob("anchor", str(e), "missing", "violation",
                "an anchor confirmed on the reference tree is gone; the rule instance cannot be evaluated (fail closed)")
     return ctx
+
+
+_ANCHOR_FILES = {}
+
+
+def anchor_files(prop):
+    if not _ANCHOR_FILES:
+        for l in open(os.path.join(VERIF, "properties.jsonl")):
+            p = json.loads(l)
+            _ANCHOR_FILES[p["id"]] = {f for f in p["anchors"].get("files", []) if f.endswith(".rs")}
+    return _ANCHOR_FILES.get(prop, set())
 
 
 def load_mutants(prop):
